@@ -10,7 +10,7 @@
 (* per subset.  Concrete tags and reference kinds are rotated over the      *)
 (* tables of Filter.tla (Salt shifts the rotation).                         *)
 EXTENDS Filter, TLC, Json
-CONSTANTS MaxN, MaxUnits, MaxEdges, MaxEdgesBig, Salt, EmitMod, CheckSplit, KindN, FewSubsets, RootEdges
+CONSTANTS MaxN, MaxUnits, MaxEdges, MaxEdgesBig, Salt, EmitMod, CheckSplit, KindN, FewSubsets, RootN
 VARIABLE g
 
 Classes == {"ns", "noback", "back"}
@@ -93,7 +93,7 @@ EdgeBound(s) == IF s.n >= MaxN /\ MaxN > 3 THEN MaxEdgesBig ELSE MaxEdges
 EdgeStep == /\ g.phase = "edges" /\ Len(g.edges) < EdgeBound(g) /\ ~g.solo
             /\ \E f \in ((-g.nunits)..(-1)) \cup (1..g.n) : \E t \in (-g.nunits)..g.n :
                  /\ EdgeIndex(g, f, t) > g.last
-                 /\ (f < 0 => Len(g.edges) = 0 /\ RootEdges /\ t >= 0)     \* at most one reference held by a root
+                 /\ (f < 0 => Len(g.edges) = 0 /\ g.n <= RootN /\ t >= 0)     \* at most one reference held by a root
                  /\ \/ g' = [g EXCEPT !.edges = Append(@, <<f, t, "">>), !.last = EdgeIndex(g, f, t)]
                     (* single-edge graphs over few entries: every kind that can encode the edge *)
                     \/ /\ Len(g.edges) = 0 /\ g.n <= KindN
